@@ -226,6 +226,8 @@ var c18docs = []string{
 	`<Doc A-b="1" ns:C="x &amp; y"><Item-One id="7">t</Item-One><Item-One>1.50</Item-One><e/><m x="true"> pad <k>NaN</k></m><!--c--></Doc>`,
 	`<a><b c-d="&lt;" E="2">5</b><b>true</b><x-y>é</x-y></a>`,
 	`<r><list><v>1</v><w>2</w><v>3</v></list><?pi do?><t a="b">text</t></r>`,
+	`<Stream:Stream To="x"><A-b c="1">1</A-b><k>2</k></Stream:Stream>`,
+	`<stream:stream to="y"><a>1</a></stream:stream>`,
 }
 var c18json = []string{`{"a":{"-x":"1","#text":"<&>","l":[1,2,{"k":"v"}]},"b":null}`, `[{"q":1.5}]`}
 
